@@ -6,13 +6,17 @@
 package main
 
 import (
-	"runtime"
+	"context"
+	"time"
+
 	"bufio"
 	"encoding/json"
 	"flag"
 	"fmt"
+	mtypes "github.com/truora/minidyn/types"
 	"math/rand"
 	"os"
+	"runtime"
 	"sync"
 	"sync/atomic"
 
@@ -30,9 +34,11 @@ type entry struct {
 
 var clock int64
 
+var nocondG = map[string]interface{}{"some": false, "ast": map[string]interface{}{"k": "none"}}
+
 func main() {
 	sdk := flag.String("sdk", "v2", "v1 | v2")
-	scenario := flag.String("scenario", "counter", "counter | putonce | mixed | lifecycle | createrace | indexreads | condupdate")
+	scenario := flag.String("scenario", "counter", "counter | putonce | mixed | lifecycle | createrace | indexreads | condupdate | batchrace | cancel")
 	seed := flag.Int64("seed", 1, "seed")
 	gor := flag.Int("g", 6, "goroutines")
 	n := flag.Int("n", 8, "operations per goroutine")
@@ -60,8 +66,25 @@ func main() {
 		r := h.Exec(p, e)
 		ret := atomic.AddInt64(&clock, 1)
 		mu.Lock()
+		defer mu.Unlock()
+		if e.Op == "BatchWrite" && r.Err == "none" && len(r.Unproc) == 0 {
+			// BatchWriteItem is not atomic as a whole (neither is DynamoDB's): each of its requests is a write of its own that takes
+			// effect somewhere between the call and its return, so the history gets one entry per request, all with the call's stamps
+			for _, wr := range e.WReqs {
+				var sub map[string]interface{}
+				if wr.Put.Some {
+					sub = map[string]interface{}{"op": "PutItem", "c": e.C, "t": wr.T, "item": wr.Put.I, "cond": nocondG, "names": map[string]interface{}{},
+						"values": map[string]interface{}{}, "rvf": false}
+				} else {
+					sub = map[string]interface{}{"op": "DeleteItem", "c": e.C, "t": wr.T, "key": wr.Del.K, "cond": nocondG, "names": map[string]interface{}{},
+						"values": map[string]interface{}{}, "retold": false, "rvf": false}
+				}
+				sraw, _ := json.Marshal(sub)
+				hist = append(hist, entry{G: g, Inv: inv, Ret: ret, E: sraw, R: h.NewResp()})
+			}
+			return
+		}
 		hist = append(hist, entry{G: g, Inv: inv, Ret: ret, E: raw, R: r})
-		mu.Unlock()
 	}
 	S := func(s string) map[string]interface{} { return map[string]interface{}{"t": "S", "s": toInts(s)} }
 	N := func(i int) map[string]interface{} {
@@ -130,7 +153,7 @@ func main() {
 		return map[string]interface{}{"op": "CreateTable", "c": "c1", "t": t, "hash": map[string]interface{}{"n": "h", "ty": "S"},
 			"range": map[string]interface{}{"some": true, "n": "r", "ty": "S"}, "billing": "PAY_PER_REQUEST", "thr": false,
 			"attrs": []interface{}{ad("h"), ad("r"), ad("g"), ad("s"), ad("l")},
-			"gsis": []interface{}{ix("gix", "g", ""), ix("gsx", "g", "s")}, "lsis": []interface{}{ix("lix", "h", "l")}}
+			"gsis":  []interface{}{ix("gix", "g", ""), ix("gsx", "g", "s")}, "lsis": []interface{}{ix("lix", "h", "l")}}
 	}
 	putG := func(t, k, r, g string, v int) map[string]interface{} {
 		return map[string]interface{}{"op": "PutItem", "c": "c1", "t": t, "item": map[string]interface{}{"h": S(k), "r": S(r), "g": S(g), "s": S(r), "l": S(r), "v": N(v)},
@@ -198,7 +221,22 @@ func main() {
 			run(g, func(i int) {
 				r := seeds[g]
 				k := []string{"a", "b"}[r.Intn(2)]
-				switch r.Intn(8) {
+				switch r.Intn(10) {
+				case 8, 9: // a batch of two writes: it goes through the same locks as the single-item calls, or should
+					other := []string{"a", "b", "c"}[r.Intn(3)]
+					req := func(kind, kk string) map[string]interface{} {
+						none := map[string]interface{}{"some": false, "i": map[string]interface{}{}}
+						noneK := map[string]interface{}{"some": false, "k": map[string]interface{}{}}
+						if kind == "put" {
+							return map[string]interface{}{"t": "tbl1", "put": map[string]interface{}{"some": true, "i": map[string]interface{}{"h": S(kk), "v": N(g*100 + i)}}, "del": noneK}
+						}
+						return map[string]interface{}{"t": "tbl1", "put": none, "del": map[string]interface{}{"some": true, "k": key(kk)}}
+					}
+					reqs := []interface{}{req("put", k)}
+					if other != k {
+						reqs = append(reqs, req([]string{"put", "del"}[r.Intn(2)], other))
+					}
+					do(g, map[string]interface{}{"op": "BatchWrite", "c": "c1", "reqs": reqs})
 				case 0:
 					do(g, put(k, g*100+i, nil))
 				case 1:
@@ -235,6 +273,53 @@ func main() {
 				}
 			})
 		}
+	case "batchrace": // round i: every goroutine sends a batch of 12 puts (its own keys) and one shared key at the same moment; goroutine 1 scans
+		for g := 1; g <= *gor; g++ {
+			g := g
+			run(g, func(i int) {
+				noneK := map[string]interface{}{"some": false, "k": map[string]interface{}{}}
+				reqs := []interface{}{}
+				for j := 0; j < 12; j++ {
+					reqs = append(reqs, map[string]interface{}{"t": "tbl1", "put": map[string]interface{}{"some": true,
+						"i": map[string]interface{}{"h": S(fmt.Sprintf("g%dr%dj%d", g, i%2, j)), "v": N(g*1000 + i)}}, "del": noneK})
+				}
+				reqs = append(reqs, map[string]interface{}{"t": "tbl1", "put": map[string]interface{}{"some": true,
+					"i": map[string]interface{}{"h": S("shared"), "v": N(g*1000 + i)}}, "del": noneK})
+				barrier()
+				do(g, map[string]interface{}{"op": "BatchWrite", "c": "c1", "reqs": reqs})
+				if g == 1 {
+					do(g, get("shared"))
+				}
+			})
+		}
+	case "cancel": // a write whose context is cancelled while the client is busy: if the call reports failure, it must not take effect later
+		p.ActivateNative("c1")
+		gate, entered := make(chan struct{}), make(chan struct{})
+		var once sync.Once
+		p.Native("c1").AddUpdater("tbl1", "SET v = :v", func(item, attrs map[string]*mtypes.Item) {
+			once.Do(func() { close(entered); <-gate }) // the first update parks here, inside the client's critical section
+			item["v"] = attrs[":v"]
+		})
+		wg.Add(2)
+		go func() { // A: holds the client busy
+			defer wg.Done()
+			do(1, setV("a", 1))
+		}()
+		<-entered
+		ctx, cancel := context.WithCancel(context.Background())
+		h.SetContexts(ctx)
+		go func() { // B: a put under a context that is cancelled while it waits for the client
+			defer wg.Done()
+			do(2, put("b", 2, nil))
+		}()
+		time.Sleep(100 * time.Millisecond)
+		cancel()
+		time.Sleep(100 * time.Millisecond)
+		close(gate)
+		wg.Wait()
+		h.SetContexts(context.Background())
+		do(0, get("b"))
+		do(0, get("a"))
 	case "createrace": // round i: every goroutine creates table r<i> at the same moment; exactly one may win, and its item must survive
 		for g := 1; g <= *gor; g++ {
 			g := g
